@@ -369,7 +369,8 @@ def main():
             text += ('  Shared leg (harness/traits.py, DESIGN section 14): the same generated content held lazily from a file, '
                      'undecoded (mask_and_scale=False, signed and unsigned padding), in dask chunks, derived from an opened file, '
                      'big-endian, as transposed views, in mixed precision, with narrow tables, with its convention made explicitly from the '
-                     'documented keyword options and with an x-major first variable is observed through this '
+                     'documented keyword options, with an x-major first variable, opened with decode_coords=\'all\', with permuted index labels '
+                     'on its grid dimensions and with its geometry variables held as coordinates is observed through this '
                      'property\'s entry point and must be answered as its plain in-memory holder is; the cells involved are '
                      'compared with the coordinate model of C06.  History part: the same question again on the same object, after '
                      'other datasets (same shape and names; a near twin) were processed, after other questions - some refused - were '
